@@ -356,14 +356,16 @@ def offline_gap(ix, rep, mon):
     rep.analysed(f)
     rep.unit(f.module.rel)
     sym = f.qual
-    calls = _counter_call(f.node)
+    from sa import norm as _norm
+    fnode = _norm.while_to_for(f.node)        # a counting while loop is the range loop it spells out
+    calls = _counter_call(fnode)
     if len(calls) != 1:
         rep.fail('R-GAPLOOP', f.module.rel, sym, 'offline:one-check', 'evaluate() has %d gap checks' % len(calls), f.node.lineno)
         return
     c = calls[0]
-    loops = flow.enclosing_loops(f.node)
+    loops = flow.enclosing_loops(fnode)
     st = None
-    for s in ast.walk(f.node):
+    for s in ast.walk(fnode):
         if isinstance(s, ast.stmt) and any(x is c for x in ast.walk(s)) and id(s) in loops and not isinstance(s, (ast.For, ast.While, ast.If)):
             st = s
     encl = loops.get(id(st), []) if st is not None else []
@@ -394,19 +396,21 @@ def offline_gap(ix, rep, mon):
     X = None
     why = ''
     # the time column and the names that hold its length
-    dparam = f.node.args.args[1].arg
+    dparam = fnode.args.args[1].arg
     tcol = None
     lens = {}
-    for s_ in f.node.body:
+    for s_ in fnode.body:
         if isinstance(s_, ast.Assign) and isinstance(s_.targets[0], ast.Name):
             v = ast.unparse(s_.value).replace(' ', '').replace('"', "'")
             if v == "%s['time']" % dparam:
                 tcol = s_.targets[0].id
-    for s_ in f.node.body:
+    for s_ in fnode.body:
         if isinstance(s_, ast.Assign) and isinstance(s_.targets[0], ast.Name):
             v = ast.unparse(s_.value).replace(' ', '').replace('"', "'")
             if v in ("len(%s['time'])" % dparam, 'len(%s)' % tcol):
                 lens[s_.targets[0].id] = True
+
+    _depth = [0]
 
     def affine(e):
         """expression -> (coefficient of n, constant) or None; n = number of samples"""
@@ -414,6 +418,15 @@ def offline_gap(ix, rep, mon):
             return (0, e.value)
         if isinstance(e, ast.Name) and e.id in lens:
             return (1, 0)
+        if isinstance(e, ast.Name) and _depth[0] < 4:
+            # a local bound once to an affine expression of the length (`last = len(ts) - 1`)
+            ds = [q.value for q in fnode.body if isinstance(q, ast.Assign) and len(q.targets) == 1 and isinstance(q.targets[0], ast.Name) and q.targets[0].id == e.id]
+            if len(ds) == 1:
+                _depth[0] += 1
+                try:
+                    return affine(ds[0])
+                finally:
+                    _depth[0] -= 1
         if isinstance(e, ast.Call) and isinstance(e.func, ast.Name) and e.func.id == 'len' and len(e.args) == 1:
             a = ast.unparse(e.args[0]).replace(' ', '').replace('"', "'")
             if a in (tcol, "%s['time']" % dparam):
@@ -497,7 +510,7 @@ def offline_gap(ix, rep, mon):
             if isinstance(q, ast.If) and any(c is x for x in ast.walk(q)):
                 guard_attrs |= {x.attr for x in ast.walk(q.test) if isinstance(x, ast.Attribute) and isinstance(x.value, ast.Name) and x.value.id == 'self'}
         before = []
-        for s_ in f.node.body:
+        for s_ in fnode.body:
             if s_ is loop:
                 break
             before.append(s_)
@@ -516,10 +529,10 @@ def offline_gap(ix, rep, mon):
         raise AnalysisError('%s: loop over `%s` is not one of the recognised consecutive-pair idioms' % (f.where, it))
     # X is the time column
     tdef = None
-    for s in f.node.body:
+    for s in fnode.body:
         if isinstance(s, ast.Assign) and isinstance(s.targets[0], ast.Name) and s.targets[0].id == X:
             tdef = ast.unparse(s.value).replace(' ', '').replace('"', "'")
-    dparam = f.node.args.args[1].arg
+    dparam = fnode.args.args[1].arg
     is_time = tdef == "%s['time']" % dparam
     if ok and is_time:
         rep.ok('R-GAPLOOP', f.module.rel, sym, 'offline:in-loop', 'one check per consecutive pair of time-stamps (n-1 gaps for n samples; none for one sample)', c.lineno)
@@ -528,7 +541,7 @@ def offline_gap(ix, rep, mon):
                  % (why or 'iter `%s`, value `%s`, sequence %s' % (it, a, tdef)), c.lineno)
     # ... for every data set: the loop is on every path to a normal return (a shortcut that skips it for "uniform" traces decides uniformity
     # by something weaker than looking at each gap)
-    cfg = flow.CFG(f.node)
+    cfg = flow.CFG(fnode)
     dom = cfg.dominators()
     ln = [n for n in cfg.nodes() if cfg.stmt[n] is loop]
     rets = [n for n in cfg.reachable() if n == cfg.exit or isinstance(cfg.stmt[n], ast.Return)]
@@ -538,15 +551,15 @@ def offline_gap(ix, rep, mon):
         calls = [x for x in ast.walk(test) if isinstance(x, ast.Call)]
         only_len = all(isinstance(c_.func, ast.Name) and c_.func.id == 'len' for c_ in calls)
         return only_len and names <= ({X, 'len', dparam} | set(lens)) and not any(isinstance(x, ast.Subscript) and not (isinstance(x.slice, ast.Constant) and x.slice.value == 'time') for x in ast.walk(test))
-    guards_ = [x for x in ast.walk(f.node) if isinstance(x, ast.If) and any(y is loop for y in x.body)]
-    harmless = bool(guards_) and all(_length_guard(g_.test) and not g_.orelse for g_ in guards_) and all(g_ in f.node.body for g_ in guards_)
+    guards_ = [x for x in ast.walk(fnode) if isinstance(x, ast.If) and any(y is loop for y in x.body)]
+    harmless = bool(guards_) and all(_length_guard(g_.test) and not g_.orelse for g_ in guards_) and all(g_ in fnode.body for g_ in guards_)
     if ln and (all(ln[0] in dom[r] for r in rets if r in dom) or harmless):
         rep.ok('R-GAPLOOP', f.module.rel, sym, 'offline:every-trace', 'the gap loop lies on every path to a normal return', loop.lineno)
     else:
-        guard = [x for x in ast.walk(f.node) if isinstance(x, ast.If) and any(y is loop for y in ast.walk(x))]
+        guard = [x for x in ast.walk(fnode) if isinstance(x, ast.If) and any(y is loop for y in ast.walk(x))]
         rep.fail('R-GAPLOOP', f.module.rel, sym, 'offline:every-trace', 'the gap loop is skipped on some paths%s: for those data sets no gap is compared with the tolerance and the '
                  'counter stays where it was' % (' (under `if %s`)' % ast.unparse(guard[0].test)[:60] if guard else ''), loop.lineno)
-    unb, _ = flow.possibly_unbound(f.node)
+    unb, _ = flow.possibly_unbound(fnode)
     if unb:
         for nm, s in unb:
             rep.fail('R-UNBOUND', f.module.rel, sym, 'offline:%s' % nm, 'local `%s` may be unbound (one-sample trace)' % nm, s.lineno)
